@@ -31,7 +31,12 @@ RULE = (
     "helper's own assertions are counted and skipped. Oracle: each fabricated message validates against a FIXSchema of "
     "tests/FIX44.xml built by the check, CumQty+LeavesQty<=OrderQty, LeavesQty=0 for finished statuses, ExecID never repeats, "
     "OrderID is the same for all reports of the order, processing by the order object raises nothing. "
-    "(2) Fidelity: see evidence classes 'fidelity/*'. Non-trivial = report for an order with a pending request or a partial "
+    "(2) Fidelity: clean session scripts (Hypothesis lists <= 14 quick / 40 thorough over: initiator Logon, application message "
+    "either way, TestRequest either way, Heartbeat either way, optional final Logout from either side; starting counters symmetric "
+    "and asymmetric as after a resumed session) replayed against FIXTester(connection=initiator) through its reply / "
+    "process_msg_acceptor API and against a real AsyncFIXDummyServer endpoint over the simulated link: the initiator's sent frames "
+    "and the frames it receives (field lists without BodyLength, CheckSum, SendingTime), its connection_state and both ends' "
+    "counters after every step and its callback log must be identical. Non-trivial = report for an order with a pending request or a partial "
     "fill / script with traffic in both directions after Logon; distinct by (state signature, arguments)."
 )
 ASSUMPTIONS = [
@@ -351,16 +356,25 @@ def session_factories(acc):
         acc.case(("session", name, repr(args)), cls=["session-factory", name], sample={"factory": name, "args": repr(args), "msg": repr(m)} if len(acc.samples) < 2 else None)
 
 
+def fidelity_shard(acc, **kw):
+    from checks import c20_fidelity as F
+
+    F.fidelity_shard(acc, **kw)
+
+
+def fidelity_fixed(acc, **kw):
+    from checks import c20_fidelity as F
+
+    F.fidelity_fixed(acc, **kw)
+
+
 def plan(tier, seed):
     jobs = [("fixed", {}), ("session_factories", {})]
     n, k, ml = (500, 6, 25) if tier == "quick" else (15000, 12, 60)
     jobs += [("fab_shard", {"n": n, "seed": derive_seed(seed, PROPERTY, "fab", i), "maxlen": ml}) for i in range(k)]
-    try:
-        from checks import c20_fidelity as F
+    from checks import c20_fidelity as F
 
-        jobs += F.plan(tier, seed)
-    except ImportError:
-        pass
+    jobs += F.plan(tier, seed)
     return jobs
 
 
